@@ -12,9 +12,9 @@ Definition wf_gcolor (c : gcolor) : Prop :=
   0 <= gtyp c <= 3 /\ wf_rgba (gdata c) /\ ((gtyp c = 1 \/ gtyp c = 2) -> cr (gdata c) < 64).
 
 Theorem go_PaletteIndexColor_eq i : abs_color (go_ivg_PaletteIndexColor i) = palette_index_color i.
-Proof. reflexivity. Qed.
+Proof. first [reflexivity | cbv beta zeta delta [go_ivg_PaletteIndexColor palette_index_color abs_color]; cbn; unwrap; f_equal; lia]. Qed.
 Theorem go_CRegColor_eq i : abs_color (go_ivg_CRegColor i) = creg_color i.
-Proof. reflexivity. Qed.
+Proof. first [reflexivity | cbv beta zeta delta [go_ivg_CRegColor creg_color abs_color]; cbn; unwrap; f_equal; lia]. Qed.
 Theorem go_RGBAColor_eq d : abs_color (go_ivg_RGBAColor d) = CRGBA d.
 Proof. reflexivity. Qed.
 Theorem go_BlendColor_eq t c0 c1 : abs_color (go_ivg_BlendColor t c0 c1) = CBlend t c0 c1.
@@ -41,11 +41,15 @@ Proof.
   apply andb_prop in S. destruct S as [S S2]. apply andb_prop in S. destruct S as [_ S1]. lia.
 Qed.
 
-Theorem go_Is1_eq c : go_ivg_Is1 c = is1 c. Proof. reflexivity. Qed.
-Theorem go_Is2_eq c : go_ivg_Is2 c = is2 c. Proof. reflexivity. Qed.
-Theorem go_Is3_eq c : go_ivg_Is3 c = is3 c. Proof. reflexivity. Qed.
-Theorem go_ValidAlphaPremulColor_eq c : go_ivg_ValidAlphaPremulColor c = valid_premul c.
-Proof. reflexivity. Qed.
+(* reflexivity when the source is written as the model is; otherwise arithmetic on the boolean expressions *)
+Theorem go_Is1_eq c : wf_rgba c -> go_ivg_Is1 c = is1 c.
+Proof. intros (Hr & Hg & Hb & Ha). unfold wf_chan in *. first [reflexivity | cbv beta zeta delta [go_ivg_Is1 is1 is1u]; unwrap; lia]. Qed.
+Theorem go_Is2_eq c : wf_rgba c -> go_ivg_Is2 c = is2 c.
+Proof. intros (Hr & Hg & Hb & Ha). unfold wf_chan in *. first [reflexivity | cbv beta zeta delta [go_ivg_Is2 is2 is2u]; unwrap; lia]. Qed.
+Theorem go_Is3_eq c : wf_rgba c -> go_ivg_Is3 c = is3 c.
+Proof. intros (Hr & Hg & Hb & Ha). unfold wf_chan in *. first [reflexivity | cbv beta zeta delta [go_ivg_Is3 is3]; unwrap; lia]. Qed.
+Theorem go_ValidAlphaPremulColor_eq c : wf_rgba c -> go_ivg_ValidAlphaPremulColor c = valid_premul c.
+Proof. intros (Hr & Hg & Hb & Ha). unfold wf_chan in *. first [reflexivity | cbv beta zeta delta [go_ivg_ValidAlphaPremulColor valid_premul]; unwrap; lia]. Qed.
 Theorem go_ValidGradient_eq c : wf_rgba c -> go_ivg_ValidGradient c = valid_gradient c.
 Proof.
   intros (_ & _ & Hb & _). unfold wf_chan in Hb. unfold go_ivg_ValidGradient, valid_gradient.
@@ -61,23 +65,23 @@ Proof. lia. Qed.
 
 Theorem go_Encode1_eq c : wf_gcolor c -> go_ivg_Color_Encode1 c = enc1_result (encode1 (abs_color c)).
 Proof.
-  intros (Ht & (Hr & Hg & Hb & Ha) & Hi). unfold wf_chan in *.
+  intros W. pose proof (proj1 (proj2 W)) as Wd. destruct W as (Ht & (Hr & Hg & Hb & Ha) & Hi). unfold wf_chan in *.
   unfold go_ivg_Color_Encode1, abs_color, encode1, enc1_result.
   destruct (gtyp_cases c Ht) as [E|[E|[E|E]]]; rewrite E; cbn [Z.eqb Pos.eqb].
   - destruct (ca (gdata c) =? 255) eqn:A; cbn [negb].
-    + rewrite go_Is1_eq. destruct (is1 (gdata c)) eqn:I; [|reflexivity]. unwrap. f_equal. lia.
+    + rewrite go_Is1_eq by exact Wd. destruct (is1 (gdata c)) eqn:I; [|reflexivity]. unwrap. f_equal. lia.
     + destruct (rgba_eqb (gdata c) (mkRGBA 0 0 0 0)); [reflexivity|].
       destruct (rgba_eqb (gdata c) (mkRGBA 128 128 128 128)); [reflexivity|].
       destruct (rgba_eqb (gdata c) (mkRGBA 192 192 192 192)); reflexivity.
-  - rewrite (lor_low_high 7) by (pows; lia). reflexivity.
-  - rewrite (lor_low_high 6) by (pows; lia). reflexivity.
+  - try rewrite (lor_low_high 7) by (pows; lia). unwrap. first [reflexivity | f_equal; lia].
+  - try rewrite (lor_low_high 6) by (pows; lia). unwrap. first [reflexivity | f_equal; lia].
   - reflexivity.
 Qed.
 
 Theorem go_Encode2_eq c : wf_gcolor c -> go_ivg_Color_Encode2 c = encl_result [0; 0] (encode2 (abs_color c)).
 Proof.
-  intros (Ht & (Hr & Hg & Hb & Ha) & Hi). unfold wf_chan in *.
-  unfold go_ivg_Color_Encode2, go_ivg_Color_Is2, abs_color, encode2, encl_result. rewrite go_Is2_eq.
+  intros W. pose proof (proj1 (proj2 W)) as Wd. destruct W as (Ht & (Hr & Hg & Hb & Ha) & Hi). unfold wf_chan in *.
+  unfold go_ivg_Color_Encode2, go_ivg_Color_Is2, abs_color, encode2, encl_result. rewrite go_Is2_eq by exact Wd.
   destruct (gtyp_cases c Ht) as [E|[E|[E|E]]]; rewrite E; cbn [Z.eqb Pos.eqb andb]; try reflexivity.
   destruct (is2 (gdata c)); [|reflexivity]. unwrap.
   rewrite !(lor_high_low 4) by (pows; lia). f_equal. f_equal; [lia|]. f_equal. lia.
@@ -86,8 +90,8 @@ Qed.
 Theorem go_Encode3Direct_eq c : wf_gcolor c ->
   go_ivg_Color_Encode3Direct c = encl_result [0; 0; 0] (encode3direct (abs_color c)).
 Proof.
-  intros (Ht & _). unfold go_ivg_Color_Encode3Direct, go_ivg_Color_Is3, abs_color, encode3direct, encl_result.
-  rewrite go_Is3_eq.
+  intros W. pose proof (proj1 (proj2 W)) as Wd. destruct W as (Ht & _). unfold go_ivg_Color_Encode3Direct, go_ivg_Color_Is3, abs_color, encode3direct, encl_result.
+  rewrite go_Is3_eq by exact Wd.
   destruct (gtyp_cases c Ht) as [E|[E|[E|E]]]; rewrite E; cbn [Z.eqb Pos.eqb andb]; try reflexivity.
   destruct (is3 (gdata c)); reflexivity.
 Qed.
@@ -108,7 +112,7 @@ Qed.
 
 Theorem go_Color_RGBA_eq c : wf_gcolor c -> go_ivg_Color_RGBA c = color_rgba (abs_color c).
 Proof.
-  intros (Ht & _). unfold go_ivg_Color_RGBA, abs_color, color_rgba. rewrite go_ValidAlphaPremulColor_eq.
+  intros W. pose proof (proj1 (proj2 W)) as Wd. destruct W as (Ht & _). unfold go_ivg_Color_RGBA, abs_color, color_rgba. rewrite go_ValidAlphaPremulColor_eq by exact Wd.
   destruct (gtyp_cases c Ht) as [E|[E|[E|E]]]; rewrite E; cbn [Z.eqb Pos.eqb negb orb]; try reflexivity.
   destruct (valid_premul (gdata c)); reflexivity.
 Qed.
@@ -176,7 +180,7 @@ Qed.
 Theorem go_DecodeGradient_eq c :
   go_ivg_DecodeGradient c =
   let g := decode_gradient c in (gp_cbase g, gp_nbase g, gp_shape g, gp_spread g, gp_nstops g).
-Proof. reflexivity. Qed.
+Proof. first [reflexivity | cbv beta zeta delta [go_ivg_DecodeGradient decode_gradient gp_cbase gp_nbase gp_shape gp_spread gp_nstops]; unwrap; repeat (f_equal; try lia)]. Qed.
 
 (* Color.Resolve *)
 Lemma go_Resolve_simple fuel c pal creg : 0 <= gtyp c < 3 ->
